@@ -143,7 +143,9 @@ def run_case(case, ctx):
         for what, Tp in (("relative 2^-25", [[x * (1.0 + 2.0 ** -25) for x in p_] for p_ in big]),
                          ("absolute 1e-6 pattern", [[p_[0] + 1e-6 * (i + 1), p_[1] - 2e-6] for i, p_ in enumerate(big)])):
             rp, _ = om.wasserstein_ref(big, Tp)
-            tight = 1e-9 * abs(rp) + 64 * 2.3e-16 * scale_of(big, Tp) * (len(big) + len(Tp))
+            # relative to the VALUE only: differences of nearby coordinates are exact in floating point, so every
+            # tiny pairing cost (and their sum) is known to a few ulps of itself
+            tight = 1e-11 * abs(rp)
             for kw in ({}, {"matching": True}):
                 vp, _ = call_warn(ctx, persim.wasserstein, farr(big), farr(Tp), **kw)
                 vp = vp[0] if isinstance(vp, tuple) else vp
